@@ -1161,6 +1161,8 @@ class Network:
 
         # Complete expected response futures
         for expected_response in self._expected_response_futures:
+            if expected_response.done():
+                continue
             if expected_response.matches(connection, message):
                 expected_response.set_result((connection, message, ))
 
